@@ -525,7 +525,7 @@ Section Proofs.
   Theorem iter_walk_ok : forall w root fuel v, clean w -> enough_fuel root <= fuel ->
     F root = Some v ->
     exists s new, iter_walk fuel w root = (s, Ok v) /\ clean s /\ sub (mm w) (mm s) /\
-      fresh_nodes (mm w) root new /\
+      mm s root = Some v /\ fresh_nodes (mm w) root new /\
       (forall x, inm (mm s) x = true <-> inm (mm w) x = true \/ In x new) /\
       calls s = calls w + length new /\ log s = rev new ++ log w /\
       pops s <= pops w + 2 * (1 + edges new).
@@ -547,7 +547,7 @@ Section Proofs.
       { apply (run_of_steps k); [exact E|exact S2|]. cbn [pops].
         pose proof (fresh_bound _ _ _ Hfresh). unfold DagWalk.enough_fuel in Hfuel. lia. }
       rewrite Hrun, Hmv'. exists s', new.
-      split; [reflexivity|]. split; [split; assumption|]. split; [exact Sub2|].
+      split; [reflexivity|]. split; [split; assumption|]. split; [exact Sub2|]. split; [exact Hmv'|].
       split; [exact Hfresh|]. split; [exact D2|]. split; [exact C2|]. split; [exact L2|exact P2].
     - destruct Hk as (res & x & exp & (_ & _ & _ & _ & (c & [<-|[]] & Hr) & _ & _ & HFx & _) & _).
       rewrite (F_none_up _ _ Hr HFx) in HF. discriminate.
@@ -596,7 +596,7 @@ Section Proofs.
   Theorem walk_ok : forall early oneshot w root fuel v, clean w -> enough_fuel root <= fuel ->
     F root = Some v ->
     exists s new, walk early oneshot fuel w root = (s, Ok v) /\ clean s /\
-      (mm s = mempty \/ sub (mm w) (mm s)) /\ (oneshot = false -> sub (mm w) (mm s)) /\
+      (mm s = mempty \/ sub (mm w) (mm s)) /\ (oneshot = false -> sub (mm w) (mm s) /\ mm s root = Some v) /\
       fresh_nodes (mm w) root new /\
       calls s = calls w + length new /\ log s = rev new ++ log w /\
       pops s <= pops w + 2 * (1 + edges new).
@@ -606,17 +606,17 @@ Section Proofs.
     - destruct early; [|discriminate]. destruct Hc as [Hst Hm].
       assert (v' = v) by (apply Hm in Ee; congruence). subst v'.
       exists w, []. split; [reflexivity|]. split; [split; assumption|].
-      split; [right; apply sub_refl|]. split; [intros _; apply sub_refl|].
+      split; [right; apply sub_refl|]. split; [intros _; split; [apply sub_refl|exact Ee]|].
       split; [apply fresh_nil; [exact Hm|eapply some_inm; eauto]|]. cbn. split; [lia|].
       split; [reflexivity|lia].
     - destruct (iter_walk_ok w root fuel v Hc Hfuel HF)
-        as (s & new & Hw & [Hst Hm] & Hsub & Hfresh & _ & Hcalls & Hlog & Hpops).
+        as (s & new & Hw & [Hst Hm] & Hsub & Hroot & Hfresh & _ & Hcalls & Hlog & Hpops).
       rewrite Hw. destruct oneshot.
       + exists (with_mm A s mempty), new. split; [reflexivity|].
         split; [split; [exact Hst|apply Mok_empty]|]. split; [left; reflexivity|].
         split; [discriminate|]. auto.
       + exists s, new. split; [reflexivity|]. split; [split; assumption|]. split; [right; exact Hsub|].
-        split; [intros _; exact Hsub|]. auto.
+        split; [intros _; split; [exact Hsub|exact Hroot]|]. auto.
   Qed.
 
   Theorem walk_err : forall early oneshot w root fuel, clean w -> enough_fuel root <= fuel ->
@@ -660,7 +660,7 @@ Section Proofs.
     intros early oneshot w root fuel s a Hc Hfuel Hw. destruct (F root) as [v|] eqn:HF.
     - destruct (walk_ok early oneshot w root fuel v Hc Hfuel HF)
         as (s' & new & Hw' & Hcl & _ & Hsub & _).
-      rewrite Hw in Hw'. inversion Hw'; subst. split; [apply Hcl|]. split; [exact Hsub|].
+      rewrite Hw in Hw'. inversion Hw'; subst. split; [apply Hcl|]. split; [intros Ho; apply Hsub; exact Ho|].
       split; [intros _ _; exact Hcl|discriminate].
     - destruct (walk_err early oneshot w root fuel Hc Hfuel HF) as (s' & x & Hw' & Hm & Hsub & _).
       rewrite Hw in Hw'. inversion Hw'; subst. split; [exact Hm|]. split; [intros _; exact Hsub|].
@@ -711,6 +711,13 @@ Section Proofs.
   Qed.
   (* cost of type checking at creation: when the children of the new node are memoised
      (they were checked when they were created) one callback and O(arity) iterations *)
+  Lemma fresh_memoised_root m root new : Mok m -> inm m root = true -> fresh_nodes m root new -> new = [].
+  Proof.
+    intros Hm Hr [_ Hx]. destruct new as [|x new]; [reflexivity|]. exfalso.
+    destruct (proj1 (Hx x) (or_introl eq_refl)) as [Hrx Hf].
+    rewrite (Mok_reach _ _ _ Hm Hr Hrx) in Hf. discriminate.
+  Qed.
+
   Lemma fresh_children_memoised m root new : Mok m ->
     (forall c, In c (children root) -> inm m c = true) ->
     fresh_nodes m root new -> new = [] \/ new = [root].
